@@ -1,9 +1,83 @@
 import StraxModel.Driver.Parse
+import StraxModel.Model.IntervalAlgos
 namespace Strax.Driver
-open Strax
+open Strax Strax.IntervalAlgos
 
-/-- ops of property C17 (stub: no ops yet) -/
-def handleC17 : List String → Option String
+namespace C17
+def showPairsNat (l : List (Nat × Nat)) : String :=
+  if l.isEmpty then "-" else ",".intercalate (l.map fun p => s!"{p.1}:{p.2}")
+def showPairsInt (l : List (Int × Int)) : String :=
+  if l.isEmpty then "-" else ",".intercalate (l.map fun p => s!"{p.1}:{p.2}")
+-- output `3:0,1|-|2` = three groups (ids; `-` = empty group); `0:` = no groups
+def showGroups (g : List (List Row)) : String :=
+  s!"{g.length}:" ++ "|".intercalate (g.map showIds)
+def parseCRow (tok : String) : Option CRow :=
+  match tok.splitOn ":" with
+  | [a, b, c] => do pure ⟨← a.toInt?, ← b.toInt?, ← c.toNat?⟩
   | _ => none
+def parseCRows (s : String) : Option (List CRow) := (splitList s ",").mapM parseCRow
+def showBools (l : List Bool) : String := "".intercalate (l.map fun b => if b then "1" else "0")
+end C17
+open C17
+
+/-- ops of theory T13 (interval kernels), all prefixed `c17.` -/
+def handleC17Single : List String → Option String
+  | ["c17.fcin", things, containers] => do
+    let t ← parseRows things; let c ← parseRows containers
+    pure <| showExcept showInts (fullyContainedIn t c)
+  | ["c17.fcincore", things, containers] => do
+    let t ← parseRows things; let c ← parseRows containers
+    pure s!"ok {showInts (fcInCore t c)}"
+  | ["c17.split", things, containers] => do
+    let t ← parseRows things; let c ← parseRows containers
+    pure <| showExcept showGroups (splitByContainment t c)
+  | ["c17.splitraw", things, idx] => do
+    let t ← parseRows things; let i ← parseNats idx
+    pure s!"ok {showGroups (split t i)}"
+  | ["c17.emptyids", n, full] => do
+    let n ← n.toNat?; let f ← parseNats full
+    pure s!"ok {showNats (getEmptyContainerIds n f)}"
+  | ["c17.overlap", a1, na, b1, nb] => do
+    let a1 ← a1.toInt?; let na ← na.toInt?; let b1 ← b1.toInt?; let nb ← nb.toInt?
+    pure <| showExcept (fun ((a, b), (c, d)) => s!"{a},{b},{c},{d}") (overlapIndices a1 na b1 nb)
+  | ["c17.touch", things, containers, w] => do
+    let t ← parseRows things; let c ← parseRows containers; let w ← w.toInt?
+    pure <| showExcept showPairsNat (touchingWindows t c w)
+  | ["c17.touchcore", things, containers, w] => do
+    let t ← parseRows things; let c ← parseRows containers; let w ← w.toInt?
+    pure s!"ok {showPairsNat (touchingWindowsCore t c w)}"
+  | ["c17.diff", rows] => do
+    let r ← parseRows rows
+    pure s!"ok {showInts (diffGaps r)}"
+  | ["c17.findbreak", rows, safe, notBefore] => do
+    let r ← parseRows rows; let s ← safe.toInt?; let nb ← notBefore.toInt?
+    pure <| showExcept toString (findBreakI r s nb)
+  | ["c17.frombreak", rows, safe, notBefore, left, tolerant] => do
+    let r ← parseRows rows; let s ← safe.toInt?; let nb ← notBefore.toInt?
+    let l ← parseBool left; let tol ← parseBool tolerant
+    pure <| showExcept (fun (x, t) => s!"{showIds x} {t}") (fromBreak r s nb l tol)
+  | ["c17.prevnext", things, intervals] => do
+    let t ← parseRows things; let iv ← parseRows intervals
+    pure <| showExcept showPairsInt (absTimeToPrevNext t iv)
+  | ["c17.sort", hasChannel, rows] => do
+    let h ← parseBool hasChannel; let r ← parseCRows rows
+    let out := sortByTime h r
+    pure s!"ok {showNats (out.map (·.id))}"
+  -- decidable hypotheses of the theorems, evaluated by the model's own deciders:
+  -- things: sorted by time, sorted by end, non-negative, positive, non-overlapping; same for the second array
+  | ["c17.hyp", things, containers] => do
+    let t ← parseRows things; let c ← parseRows containers
+    let f := fun (l : List Row) =>
+      [sortedByTimeB l, sortedByEndB l, nonNegB l, positiveRowsB l, nonOverlapB l]
+    pure s!"ok {showBools (f t)} {showBools (f c)}"
+  | _ => none
+
+/-- `c17.sweep <op> <things> <cfg;cfg;…> [extra…]`: apply `<op> <things> <cfg> [extra…]` to every listed second
+array and join the answers with `;` (keeps the exhaustive sweeps of the harness to one line per things array). -/
+def handleC17 : List String → Option String
+  | "c17.sweep" :: op :: things :: cfgs :: extra => do
+    let outs ← (cfgs.splitOn ";").mapM fun cfg => handleC17Single (op :: things :: cfg :: extra)
+    pure (";".intercalate outs)
+  | toks => handleC17Single toks
 
 end Strax.Driver
